@@ -338,12 +338,24 @@ class LocalStorageBackend(StorageBackend):
         live table (#45).
         """
         full_prefix = self._resolve_path(prefix)
-        if not os.path.exists(full_prefix):
+        # A listing that cannot be taken must fail loudly (as the S3 backend's
+        # does): garbage collection and version recovery decide from it, and a
+        # stat/scandir error read as "empty directory" silently drops marker
+        # protection or hides the newest metadata version. os.path.exists and
+        # os.walk both swallow OSError, so probe and walk explicitly.
+        try:
+            os.stat(full_prefix)
+        except (FileNotFoundError, NotADirectoryError):
             return []
+
+        def _walk_error(err: OSError) -> None:
+            # a directory that vanished mid-walk is legitimately empty
+            if not isinstance(err, (FileNotFoundError, NotADirectoryError)):
+                raise err
 
         base_path = self._real_base_path()
         result = []
-        for root, _dirs, files in os.walk(full_prefix):
+        for root, _dirs, files in os.walk(full_prefix, onerror=_walk_error):
             for file in files:
                 full_path = os.path.join(root, file)
                 # Return path relative to the canonical base_path
